@@ -52,7 +52,7 @@ RULE = (
 )
 SCHEDULES = [(1, 0), (2, 0), (1, 1), (9, 7)]
 BOUNDS = {
-    "quick": {"seeds": [0, 1, 12], "schedules": SCHEDULES, "logging": "default (silenced) for every schedule; the first schedule once more with the package logger at DEBUG", "inputs_per_operation": 2, "cross_process": "12 library operations x 2 inputs x 2 seeds in 2 interpreters with different PYTHONHASHSEED"},
+    "quick": {"seeds": [0, 1, 12], "schedules": SCHEDULES, "logging": "default (silenced) for every schedule; the first schedule once more with the package logger at DEBUG", "inputs_per_operation": 2, "large_plate_input": "generators, smoothers, hold-outs and prepare_retrospective_simulation also on a 22-well screen with plates of 8, 8 and 6 wells", "cross_process": "12 library operations x 2 inputs x 2 seeds in 2 interpreters with different PYTHONHASHSEED"},
     "thorough": {"seeds": [0, 1, 2, 12, 2**32 - 1], "schedules": SCHEDULES + [(123456, 3), (0, 100)], "logging": "as quick", "inputs_per_operation": 3},
 }
 ASSUMPTIONS = [
@@ -183,6 +183,13 @@ def _rows(variant):
             ("s3", "p2", (("b", 1.0), ("c", 1.0)), 0.37, False),
             ("s3", "p2", (("c", 1.0), ("b", 1.0)), 0.38, False),
         ]
+    elif variant == 5:
+        # large plates (8, 8 and 6 wells, one of them observed): operations that handle MANY wells of one plate at once
+        drugs = ["a", "b", "c", "d", "e"]
+        rows = []
+        for i in range(22):
+            plate = "q0" if i < 8 else ("q1" if i < 16 else "q2")
+            rows.append((f"s{i % 3}", plate, ((drugs[i % 5], 1.0 + i % 2), (drugs[(i + 1 + i // 5) % 5], 1.0)), 0.05 + 0.04 * i, plate == "q2"))
     elif variant == 3:
         rows = [
             ("s0", "p1", (("a", 1.0), ("b", 1.0)), 0.35, False),
@@ -691,6 +698,9 @@ def plan(tier, seed):
     for name in operations(tier):
         for variant in range(b["inputs_per_operation"]):
             items.append({"op": name, "variant": variant})
+    for name in operations(tier):
+        if name.startswith(("holdout:", "gen:", "smooth:", "cli:prepare_retrospective_simulation")) and "zero-plates" not in name and "again" not in name:
+            items.append({"op": name, "variant": 5})
     for name in reuse_operations():
         items.append({"op": name, "reuse": True})
     items.append({"op": "cross-process", "cross": True, "hashseeds": [1, 3, 5] if tier == "quick" else [1, 2, 3, 4, 5, 6]})
